@@ -1,6 +1,6 @@
 """C18 -- a failing multi-file load leaves the model repositories clean.
 
-(M)    spec/LoaderRepo.tla over the family FamC18 (MC_LoaderRepo.tla): import graphs x which reachable
+(M)    spec/LoaderRepo.tla over the family FamC18 (EnumLoaderRepo.tla): import graphs x which reachable
        file fails x phase {syntax, unknown reference, object processor, model processor} x global
        repository on/off x a previously cached unrelated or related file; session: [pre-load,] failing
        load, repair of the file, reload, reload again; invariants C18_CleanRepos, C18_RepairedReload
@@ -8,7 +8,9 @@
 (S->I) every scenario executed on the real loader; metamodel._tx_model_repository contents after the
        failure and outcome/identities of the repaired reload compared with the TLC behaviours;
 (I->S) seeded-random sessions with faults recorded and validated by TLC (TraceLoaderRepo.tla).
-Deviation clause NoCleanupOnModelProcessorFailure (finding F-C18-1).
+Main models from files and from strings without file name (GlobalRepo providers, import-less models).
+Deviation clauses NoCleanupOnModelProcessorFailure (F-C18-1, fixed) and
+NoCleanupOnStringModelProcessorFailure (F-C18-2: the same defect on the model_from_str path).
 """
 from ..drive import multifile as mf
 
